@@ -67,6 +67,16 @@ func AcceptOrdinalSaleListing2Dummies(ctx context.Context, vla *ValidateListingA
 		return nil, err
 	}
 
+	// Change adds nothing when the funds do not reach the fee: the flow must
+	// not go on to complete a transaction that underpays the quote.
+	enough, err := tx.EstimateIsFeePaidEnough(asoa.FQ)
+	if err != nil {
+		return nil, err
+	}
+	if !enough {
+		return nil, bt.ErrInsufficientFees
+	}
+
 	//nolint:dupl // TODO: are 2 dummies useful or to be removed?
 	for i, u := range asoa.UTXOs {
 		// skip 3rd input (ordinals input)
@@ -177,6 +187,16 @@ func MakeBidToBuy1SatOrdinal2Dummies(ctx context.Context, mba *MakeBid2DArgs) (*
 	err = tx.Change(mba.ChangeScript, mba.FQ)
 	if err != nil {
 		return nil, err
+	}
+
+	// Change adds nothing when the funds do not reach the fee: the flow must
+	// not go on to complete a transaction that underpays the quote.
+	enough, err := tx.EstimateIsFeePaidEnough(mba.FQ)
+	if err != nil {
+		return nil, err
+	}
+	if !enough {
+		return nil, bt.ErrInsufficientFees
 	}
 
 	//nolint: dupl // TODO: are 2 dummies useful or to be removed?
